@@ -549,7 +549,7 @@ class C20(Property):
                "symbolic links are not (abspath is lexical, as in the code)",
                "logging: only the effects of changed_logging inside the output directory are modelled (directory "
                "creation, the log file created/grown); the log text is a single opaque token",
-               "not generated: a target path that is a directory, dict keys that are not strings, floats, directories "
+               "not generated: dict keys that are not strings, floats, directories "
                "named like region GenBank files, a log file path that is an existing directory or lies below a plain "
                "file, an --output-basename containing '/', output directory `name/` where `name` is a plain file",
                "`_run_antismash` before `read_data` returns (module discovery, prerequisite checks) and the bodies of "
@@ -646,6 +646,16 @@ class C20(Property):
                 for recs, res, timings in plans:
                     for fn, handle in variants:
                         yield self.write_case(fn, handle, recs, res, timings)
+
+    def dir_target_cases(self) -> Iterator[Dict[str, Any]]:
+        """a directory sits where the results file should go"""
+        listing = [["keep.txt", False, [["raw", "bystander"]]], ["res.json", True, []]]
+        plans = [([None], [[["m0", ["mod", True, GOOD]]]]), ([], []), ([None, None], [[["m0", ["mod", False, GOOD]]], []]),
+                 ([None], [[["m0", ["raises", True, "ValueError"]]]]), ([None], [[["m0", ["invalid", ["dict", 0]]]]]),
+                 ([None], [[["m0", ["mod", True, ["opaque"]]]]]), (["ValueError"], [[]])]
+        for recs, res in plans:
+            yield {"kind": "write", "fn": "write_to_file", "handle": ["path", "res.json"], "dir": listing,
+                   "family": "dir-target", "results": {"records": recs, "results": res, "timings": ["dict", []]}}
 
     def rand_val(self, rng: random.Random, depth: int, faulty: float) -> List[Any]:
         r = rng.random()
@@ -1011,6 +1021,7 @@ class C20(Property):
         for _ in range(20000 if full else 1500):
             yield self.rand_write(rng)
         yield from self.prepare_cases(rng, full)
+        yield from self.dir_target_cases()
         yield from self.locale_cases(rng, full)
         yield from self.logname_cases(rng, full)
         yield from self.path_cases(rng, full)
